@@ -11,7 +11,9 @@ flock 9
 if [ -n "$(git -C /repo status --porcelain --untracked-files=no)" ]; then
   echo "try_patch: /repo working tree is not clean, refusing"; exit 3
 fi
-restore() { git -C /repo checkout -q -- . ; git -C /repo clean -fdq -- akd/tests akd_core/tests 2>/dev/null; }
+# evidence written while a patch is applied must not survive (committed evidence comes from the unchanged tree)
+EVBAK="/var/tmp/akd-verif-evidence-backup-$$"; rm -rf "$EVBAK"; cp -r evidence "$EVBAK"
+restore() { git -C /repo checkout -q -- . ; git -C /repo clean -fdq -- akd/tests akd_core/tests 2>/dev/null; rm -rf evidence; mv "$EVBAK" evidence; }
 trap restore EXIT
 if ! git -C /repo apply "$PATCH"; then echo "try_patch: patch does not apply"; exit 3; fi
 TIER="${VERIF_TIER:-quick}"
